@@ -405,17 +405,18 @@ Proof. intros WP Hx. unfold Napply; cbv zeta. destruct WP as (WA & LA & Ly & _ &
   - apply Forall_map. eapply Forall_impl; [|exact WR]. intros t (W & L); simpl. rewrite vscale_length, mvH_length; auto. Qed.
 
 (* ---- NormalEquationsInversion.setup as coded ----
-   Op_normal = OpH @ [Weight @] Op ; if epsI > 0: += epsI**2 * Diagonal(ones) ;
+   Op_normal = OpH @ [Weight @] Op ; if epsI != 0: += epsI**2 * Diagonal(ones) ;
    for each reg: += epsR**2 * Reg.H @ Reg ; for each nreg: += epsNR**2 * NReg
    (a left-nested _SumLinearOperator; modelled by its matvec), and
    y_normal = Op.rmatvec([Weight.matvec](y)) ; += epsR**2 * Reg.rmatvec(datareg). *)
-Variable posb : S -> bool.    (* the test  epsI > 0  *)
+Variable nzb : S -> bool.     (* the test  epsI != 0  *)
+Hypothesis nzb_sound : forall a, nzb a = false -> a = 0.
 Definition op_normal_code (P : lsq) (x : vec) : vec :=
   let n := p_n P in
   let base := match p_W P with
               | Some W => mvH S n (p_A P) (mv S W (mv S (p_A P) x))
               | None => mvH S n (p_A P) (mv S (p_A P) x) end in
-  let b1 := if posb (p_epsI P)
+  let b1 := if nzb (p_epsI P)
             then vadd S base (vscale S (sq S (p_epsI P)) (vmul S (ones S n) x)) else base in
   let b2 := fold_left (fun acc t => vadd S acc (vscale S (sq S (g_eps t)) (mvH S n (g_R t) (mv S (g_R t) x))))
                       (p_regs P) b1 in
@@ -430,10 +431,9 @@ Definition y_normal_code (P : lsq) : vec :=
 Definition op_normal_dense (P : lsq) : mat :=
   transpose S (p_n P) (map (fun j => op_normal_code P (unit S (p_n P) j)) (seq 0 (p_n P))).
 
-Theorem assembly_normal_correct P x : wfP P ->
-  (posb (p_epsI P) = true \/ sq S (p_epsI P) = 0) -> length x = p_n P ->
+Theorem assembly_normal_correct P x : wfP P -> length x = p_n P ->
   op_normal_code P x = mv S (Nmat P) x /\ y_normal_code P = rhs P.
-Proof. intros WP He Hx. rewrite Nmat_apply by auto. destruct (Weff_wf P WP) as (WW & LW).
+Proof. intros WP Hx. rewrite Nmat_apply by auto. destruct (Weff_wf P WP) as (WW & LW).
   destruct WP as (WA & LA & Ly & HW & WR & WN).
   unfold op_normal_code, y_normal_code, Napply, rhs, Weff in *. cbv zeta. set (n := p_n P) in *.
   assert (HR : forall t, In t (p_regs P) -> length (vscale S (sq S (g_eps t)) (mvH S n (g_R t) (mv S (g_R t) x))) = n).
@@ -453,8 +453,8 @@ Proof. intros WP He Hx. rewrite Nmat_apply by auto. destruct (Weff_wf P WP) as (
     rewrite <- Eb.
     assert (Lv : length (vscale S (sq S (p_epsI P)) x) = n) by (rewrite vscale_length; auto).
     assert (Em : vmul S (ones S n) x = x) by (subst n; rewrite <- Hx; apply vmul_ones).
-    assert (Hcase : (posb (p_epsI P) = true) \/ (posb (p_epsI P) = false /\ sq S (p_epsI P) = 0)).
-    { destruct (posb (p_epsI P)); auto. destruct He as [He|He]; [discriminate | auto]. }
+    assert (Hcase : (nzb (p_epsI P) = true) \/ (nzb (p_epsI P) = false /\ sq S (p_epsI P) = 0)).
+    { destruct (nzb (p_epsI P)) eqn:E; auto. right; split; auto. rewrite (nzb_sound _ E). unfold sq; ring. }
     destruct Hcase as [Hp|(Hp & Hz)]; rewrite Hp.
     + rewrite Em.
       rewrite (fold_left_vadd S n _ (p_regs P)) by (auto; rewrite vadd_length, Lb, Lv; lia).
@@ -471,10 +471,9 @@ Proof. intros WP He Hx. rewrite Nmat_apply by auto. destruct (Weff_wf P WP) as (
 Qed.
 
 (* every column of Op_normal.todense() is the column of the documented N *)
-Corollary assembly_normal_columns P j : wfP P ->
-  (posb (p_epsI P) = true \/ sq S (p_epsI P) = 0) -> j < p_n P ->
+Corollary assembly_normal_columns P j : wfP P -> j < p_n P ->
   op_normal_code P (unit S (p_n P) j) = col S j (Nmat P).
-Proof. intros WP He Hj. destruct (assembly_normal_correct P (unit S (p_n P) j) WP He (unit_length S _ _)) as (E & _).
+Proof. intros WP Hj. destruct (assembly_normal_correct P (unit S (p_n P) j) WP (unit_length S _ _)) as (E & _).
   rewrite E. apply mv_unit; auto.
   destruct (Weff_wf P WP) as (WW & LW). destruct WP as (WA & LA & Ly & _ & WR & WN). unfold Nmat; cbv zeta.
   repeat apply wf_madd; auto using wf_mm, wf_mscale, wf_mident, wf_msum, regterm_wf, nregterm_wf. Qed.
